@@ -100,14 +100,19 @@ func (g *Generator) FuncToString(f *model.Function) string {
 		}
 	}
 
+	dstVar := f.Dst
+	if f.DstVarStyle == model.DstVarArg {
+		// In arg style the destination is always passed as a pointer.
+		dstVar.Pointer = true
+	}
 	if f.PreProcess != nil {
-		sb.WriteString(g.ManipulatorToString(f.PreProcess, f.Src, f.Dst, f.AdditionalArgs))
+		sb.WriteString(g.ManipulatorToString(f.PreProcess, f.Src, dstVar, f.AdditionalArgs))
 	}
 	for i := range f.Assignments {
 		sb.WriteString(AssignmentToString(f, f.Assignments[i]))
 	}
 	if f.PostProcess != nil {
-		sb.WriteString(g.ManipulatorToString(f.PostProcess, f.Src, f.Dst, f.AdditionalArgs))
+		sb.WriteString(g.ManipulatorToString(f.PostProcess, f.Src, dstVar, f.AdditionalArgs))
 	}
 	if f.RetError || f.DstVarStyle == model.DstVarReturn {
 		sb.WriteString("\nreturn\n")
